@@ -29,12 +29,71 @@ def vlen(runs):
 
 
 def renders_its_runs(f):
-    """1 when str(f) - memoised or not - is what a value freshly built from the same runs renders"""
+    """1 when the views of f (terminal string - also read a second time -, repr, len, hash, text, width, run
+    offsets), memoised or not, are those of a value freshly built from the same runs"""
     from curtsies.formatstring import FmtStr, Chunk
+
+    def view(x):
+        out = []
+        for get in (str, repr, len, hash, lambda v: v.s, lambda v: v.width, lambda v: str(v), lambda v: v.divides):
+            try:
+                out.append(get(x))
+            except Exception as e:  # noqa - an exception is a view too (width of control characters)
+                out.append(type(e).__name__)
+        return out
     try:
-        return int(str(f) == str(FmtStr(*(Chunk(str(c.s), dict(c.atts)) for c in f.chunks))))
+        return int(view(f) == view(FmtStr(*(Chunk(str(c.s), dict(c.atts)) for c in f.chunks))))
     except Exception:  # noqa
         return 0
+
+
+KEEP = __import__("collections").deque(maxlen=4000)   # results stay alive long after their operands are gone
+
+
+_CUTS = [0]
+CUT_SEED = 0
+
+
+class _Cut(Exception):
+    """raised by the harness inside a library call to cut it short (an asynchronous exception: a signal handler
+    that raises, a watchdog)"""
+
+
+def _cut_short(fn):
+    """warming bit 64: the same call was made before and cut short by a foreign exception arriving at some line inside
+    the library; it must propagate (a call that swallows it returns whatever it returns - and is judged on it), and
+    whatever the call had stored by then must not affect the call that is recorded.  Returns (swallowed, value)."""
+    import random
+    import sys
+    _CUTS[0] += 1          # position: a function of the input being executed (replays repeat it) and of the call's rank in it
+    pos = random.Random(CUT_SEED * 1000 + _CUTS[0]).randrange(1, 40)
+    seen = [0]
+
+    def tracer(frame, event, arg):
+        if "curtsies" not in frame.f_code.co_filename:
+            return None
+        if event == "line":
+            seen[0] += 1
+            if seen[0] == pos:
+                sys.settrace(None)
+                raise _Cut()
+        return tracer
+    old = sys.gettrace()
+    sys.settrace(tracer)
+    try:
+        r = fn()
+        if not isinstance(r, (str, list)) and r is not None:
+            try:
+                r = list(r) if not hasattr(r, "chunks") else r
+            except TypeError:
+                pass
+        return seen[0] >= pos, r
+    except _Cut:
+        return False, None
+    except BaseException:  # noqa - the library's own exceptions on this input
+        return False, None
+    finally:
+        sys.settrace(old)
 
 
 def _again(fn):
@@ -58,10 +117,14 @@ def enc_res(fn):
     """Run fn() on the real code; encode a FmtStr result or the exception."""
     from curtsies.formatstring import FmtStr
     _again(fn)
+    swallowed = False
+    if enc.WARM & 64:
+        swallowed, r0 = _cut_short(fn)
     try:
-        r = fn()
+        r = r0 if swallowed else fn()
     except Exception as e:  # noqa - every exception class is an observation
         return {"k": "exc", "v": [], "t": enc.exc_name(e), "n": 0, "s": [], "fr": 1}
+    KEEP.append(r)
     if isinstance(r, str):
         return {"k": "ok", "v": [[enc.enc_text(r), list(enc.NOATTS)]], "t": "str", "n": len(r), "s": enc.enc_text(r), "fr": 1}
     if not isinstance(r, FmtStr):
@@ -76,10 +139,14 @@ def enc_list_res(fn):
     """fn() returns a list of FmtStr -> {"k","t","vs":[runs...]}"""
     from curtsies.formatstring import FmtStr
     _again(fn)
+    swallowed = False
+    if enc.WARM & 64:
+        swallowed, r0 = _cut_short(fn)
     try:
-        r = list(fn())
+        r = list(r0) if swallowed and r0 is not None else list(fn())
     except Exception as e:  # noqa
         return {"k": "exc", "t": enc.exc_name(e), "vs": [], "fr": 1}
+    KEEP.append(r)
     if not all(isinstance(x, FmtStr) for x in r):
         return {"k": "exc", "t": "NotFmtStrList", "vs": [], "fr": 1}
     return {"k": "ok", "t": "", "vs": [enc.enc_fmtstr(x) for x in r], "fr": int(all(renders_its_runs(x) for x in r))}
